@@ -8,6 +8,7 @@ and what each exceptional branch returns (copy of the other operand, unchanged,
 doubling, identity, normalised coordinates X/Z^2, Y/Z^3).  The general-position
 formulas (dbl-2009-l, add-2007-bl, madd-2007-bl) are NOT decided."""
 import exp
+import inline as INL
 from exp import Agg, Int, Lin, Opt, TOP
 from facts import callee
 from props import common
@@ -21,7 +22,8 @@ at = Lin.atom
 
 def mk_interp(fx, proj, aff, extra=None):
     def inline(p):
-        return p in inl
+        # the identity / normalisation predicates, and any private helper the code was factored into
+        return p in inl or INL.is_private_helper(fx, p)
     inl = set()
     for tr, ty in (('CurveProjective', proj), ('CurveAffine', aff)):
         for m in ('is_zero', 'is_normalized'):
@@ -55,8 +57,20 @@ def mk_interp(fx, proj, aff, extra=None):
                 return True
         if extra and extra(I, fr, t, c, pth):
             return True
+        # conversions between the two representations are part of what is decided here: local
+        # implementations are interpreted (through From / Into / into_affine / into_projective delegation)
+        tgt = None
+        if c.get('trait') == 'std::convert::Into' and nm == 'into' and len(c.get('targs') or []) == 2:
+            tgt = '<%s as std::convert::From<%s>>::from' % (c['targs'][1], c['targs'][0])
+        elif c.get('res_local') and ((c.get('trait') == 'std::convert::From' and nm == 'from') or
+                                     (c.get('trait') in ('CurveProjective', 'CurveAffine') and nm in ('into_affine', 'into_projective'))):
+            tgt = c.get('res')
+        if tgt and fx.body(tgt) is not None:
+            return I._inline_call(fr, t, tgt, pth) or True
         return False
-    return exp.Interp(fx, 'mul', inline=inline, extra_transfer=tr_)
+    I_ = exp.Interp(fx, 'mul', inline=inline, extra_transfer=tr_)
+    I_.fork_inlined = True
+    return I_
 
 
 def descr(labs):
@@ -239,47 +253,22 @@ def rule_projective_ops(fx, rep):
             res = I.run(p, [('byref', P1), ('byref', P2)])
             rep.sites(I.call_sites)
             bad = []
-            true_paths = 0
-            for pth, ret, outs in res:
-                d = descr([lab_name(l) for l in pth.labels])
-                val = None
-                if isinstance(ret, Int):
-                    val = bool(ret.v)
-                if d and d[0] == ('is_zero', Z1, True):
-                    # result = other.is_zero()
-                    ok = isinstance(ret, tuple) and ret[0] == 'bool' and ret[1][0] == 'is_zero' and ret[1][1] == Z2 and len(d) == 1
-                    if not ok:
-                        bad.append('O == Q returns %r, expected Q.is_zero()' % (ret,))
-                    continue
-                if d[:2] == [('is_zero', Z1, False), ('is_zero', Z2, True)]:
-                    if val is not False or len(d) != 2:
-                        bad.append('P == O returns %r for finite P' % (ret,))
-                    continue
-                if d[:2] != [('is_zero', Z1, False), ('is_zero', Z2, False)]:
-                    bad.append('identity tests missing: %r' % (d,))
-                    continue
-                eqs = d[2:]
-                kinds = []
-                for e in eqs:
-                    if e[0] != 'eq':
-                        kinds.append('?')
-                    elif same_pair(e[1], e[2], u1, u2):
-                        kinds.append(('x', e[3]))
-                    elif same_pair(e[1], e[2], s1, s2):
-                        kinds.append(('y', e[3]))
-                    else:
-                        kinds.append('?')
-                        bad.append('compares %r with %r; expected X1*Z2^2 vs X2*Z1^2 and Y1*Z2^3 vs Y2*Z1^3' % (e[1], e[2]))
-                if '?' in kinds:
-                    continue
-                dd = dict(kinds)
-                want = dd.get('x') is True and dd.get('y') is True
-                if val is None:
-                    bad.append('result not a decided boolean on path %r' % (kinds,))
-                elif val != want:
-                    bad.append('returns %s when x-test=%s, y-test=%s' % (val, dd.get('x'), dd.get('y')))
-                if val and want:
-                    true_paths += 1
+            true_paths = 1
+            import tt
+            kz1, kz2 = ('is_zero', tt.lin_key(Z1)), ('is_zero', tt.lin_key(Z2))
+            kx, ky = tt.eq_key(u1, u2), tt.eq_key(s1, s2)
+            known = [kz1, kz2, kx, ky]
+            for k_ in tt.predicates(res):
+                if k_ not in known:
+                    bad.append('tests %r; expected only Z1 = 0, Z2 = 0, X1*Z2^2 = X2*Z1^2 and Y1*Z2^3 = Y2*Z1^3' % (k_,))
+            if not bad:
+                for env, cons in tt.table(res, known):
+                    want = (env[kz1] and env[kz2]) if (env[kz1] or env[kz2]) else (env[kx] and env[ky])
+                    vals = [tt.value_under(ret, env) for _, ret, _o in cons]
+                    if len(cons) != 1 or vals[0] is None:
+                        bad.append('for (Z1=0, Z2=0, x-test, y-test) = %r: %d consistent paths, value %r' % (tuple(env[k_] for k_ in known), len(cons), vals))
+                    elif vals[0] != want:
+                        bad.append('returns %s when (Z1=0, Z2=0, x-test, y-test) = %r' % (vals[0], tuple(env[k_] for k_ in known)))
             rep.check(not bad and true_paths == 1, 'GUARD', '%s:eq:skeleton' % g,
                       'O==Q iff Q=O; P==O false; otherwise true iff X1 Z2^2 = X2 Z1^2 and Y1 Z2^3 = Y2 Z1^3',
                       '; '.join(sorted(set(bad))) or '%d accepting paths' % true_paths, fx.fn(p)['span'], construct=p)
@@ -310,64 +299,78 @@ def rule_projective_ops(fx, rep):
                     if not (isinstance(o, Agg) and o.items == exp_items):
                         ok, why = False, 'negation gives %r, expected only y negated' % (o,)
             rep.check(ok, 'GUARD', '%s:negate(%s)' % (g, nm), 'identity unchanged, otherwise y -> -y only', why, fx.fn(p)['span'], construct=p)
-        # ---------------------------------------------------- conversions
-        p = fx.impl_method('std::convert::From', proj, 'from')
-        if p and fx.body(p):
+        # ---------------------------------------------------- conversions (every entry point, delegation inlined)
+        import tt
+        kinf = ('infinity',)
+        for ep, p, args in (('From', fx.impl_method('std::convert::From', proj, 'from'), [A2]),
+                            ('into_projective', fx.impl_method('CurveAffine', aff, 'into_projective'), [('byref', A2)])):
+            if not (p and fx.body(p)):
+                rep.fail('GUARD', '%s:affine->projective:%s:anchor' % (g, ep), 'not found')
+                continue
             rep.fn(p)
             n += 1
             I = mk_interp(fx, proj, aff)
-            res = I.run(p, [A2])
-            ok = len(res) == 2
-            why = '%d paths' % len(res)
-            for pth, ret, outs in res:
-                d = descr([lab_name(l) for l in pth.labels])
-                if d == [('infinity', True)]:
-                    if ret != ('identity', proj):
-                        ok, why = False, 'identity converts to %r' % (ret,)
-                elif d == [('infinity', False)]:
-                    if not (isinstance(ret, Agg) and ret.items[:2] == [at('x2'), at('y2')] and isinstance(ret.items[2], Lin) and not ret.items[2].t):
-                        ok, why = False, 'finite point converts to %r, expected (x, y, 1)' % (ret,)
-                else:
-                    ok, why = False, 'branches %r' % (d,)
-            rep.check(ok, 'GUARD', '%s:affine->projective' % g, 'identity -> identity; (x,y) -> (x,y,1)', why, fx.fn(p)['span'], construct=p)
-        p = fx.impl_method('std::convert::From', aff, 'from')
-        if p and fx.body(p):
-            rep.fn(p)
-            n += 1
-            I = mk_interp(fx, proj, aff)
-            res = I.run(p, [P1])
+            res = I.run(p, args)
+            rep.sites(I.call_sites)
             bad = []
-            seen = set()
+            for k_ in tt.predicates(res):
+                if k_ != kinf:
+                    bad.append('tests %r; only the infinity flag decides' % (k_,))
+            for env, cons in ([] if bad else tt.table(res, [kinf])):
+                if len(cons) != 1:
+                    bad.append('infinity=%s: %d paths' % (env[kinf], len(cons)))
+                    continue
+                ret = cons[0][1]
+                if env[kinf]:
+                    if ret != ('identity', proj):
+                        bad.append('identity converts to %r' % (ret,))
+                elif not (isinstance(ret, Agg) and len(ret.items) == 3 and ret.items[:2] == [at('x2'), at('y2')] and isinstance(ret.items[2], Lin) and not ret.items[2].t):
+                    bad.append('finite point converts to %r, expected (x, y, 1)' % (ret,))
+            rep.check(not bad, 'GUARD', '%s:affine->projective%s' % (g, '' if ep == 'From' else ':' + ep), 'identity -> identity; (x,y) -> (x,y,1)', '; '.join(bad[:3]), fx.fn(p)['span'], construct=p)
+        kz0, kz1 = ('is_zero', tt.lin_key(Z1)), tt.eq_key(Z1, Lin())
+        for ep, p, args in (('From', fx.impl_method('std::convert::From', aff, 'from'), [P1]),
+                            ('into_affine', fx.impl_method('CurveProjective', proj, 'into_affine'), [('byref', P1)])):
+            if not (p and fx.body(p)):
+                rep.fail('GUARD', '%s:projective->affine:%s:anchor' % (g, ep), 'not found')
+                continue
+            rep.fn(p)
+            n += 1
+            I = mk_interp(fx, proj, aff)
+            res = I.run(p, args)
+            rep.sites(I.call_sites)
+            bad = []
+            for k_ in tt.predicates(res):
+                if k_ not in (kz0, kz1):
+                    bad.append('tests %r; only Z = 0 and Z = 1 may decide' % (k_,))
             for pth, ret, outs in res:
-                d = descr([lab_name(l) for l in pth.labels])
-                if d == [('is_zero', Z1, True)]:
-                    seen.add('O')
+                lits = [(k_, t_) for k_, t_, _l in tt.path_literals(pth)]
+                for e in pth.events:
+                    if e[0] == 'unwrap':
+                        if (kz0, False) not in lits:
+                            bad.append('no identity test first: an inverse is unwrapped without Z != 0 having been established')
+                        if not (e[1] and e[1][0] == 'inverse'):
+                            bad.append('unwrap of something other than the inverse of Z')
+            wantx = Lin({'X1': 1, 'Z1': -2})
+            wanty = Lin({'Y1': 1, 'Z1': -3})
+            for env, cons in ([] if bad else tt.table(res, [kz0, kz1])):
+                if env[kz0] and env[kz1]:
+                    continue        # Z = 0 and Z = 1 cannot both hold
+                if len(cons) != 1:
+                    bad.append('(Z=0, Z=1) = %r: %d paths' % ((env[kz0], env[kz1]), len(cons)))
+                    continue
+                ret = cons[0][1]
+                if env[kz0]:
                     if ret != ('identity', aff):
                         bad.append('identity converts to %r' % (ret,))
                     continue
-                if not d or d[0] != ('is_zero', Z1, False):
-                    bad.append('no identity test first: %r' % (d,))
-                    continue
-                rest = d[1:]
-                if len(rest) == 1 and rest[0][0] == 'eq' and same_pair(rest[0][1], rest[0][2], Z1, Lin()):
-                    if rest[0][3]:
-                        seen.add('Z=1')
-                        if not (isinstance(ret, Agg) and ret.items[:2] == [X1, Y1] and isinstance(ret.items[2], Int) and ret.items[2].v == 0):
-                            bad.append('Z=1 fast path returns %r' % (ret,))
-                    else:
-                        seen.add('general')
-                        wantx = Lin({'X1': 1, 'Z1': -2})
-                        wanty = Lin({'Y1': 1, 'Z1': -3})
-                        if not (isinstance(ret, Agg) and ret.items[:2] == [wantx, wanty] and isinstance(ret.items[2], Int) and ret.items[2].v == 0):
-                            bad.append('general path returns %r, expected (X/Z^2, Y/Z^3, finite)' % (ret,))
-                        uw = [e for e in pth.events if e[0] == 'unwrap']
-                        if not (len(uw) == 1 and uw[0][1] and uw[0][1][0] == 'inverse'):
-                            bad.append('inverse().unwrap() not found / not on Z')
-                else:
-                    bad.append('unexpected branch %r' % (rest,))
-            rep.check(not bad and seen == {'O', 'Z=1', 'general'}, 'GUARD', '%s:projective->affine' % g,
-                      'identity -> identity; Z = 1 -> (X, Y); otherwise (X/Z^2, Y/Z^3) with the inversion only under Z != 0',
-                      '; '.join(bad) or 'cases %s' % sorted(seen), fx.fn(p)['span'], construct=p)
+                fin = isinstance(ret, Agg) and len(ret.items) == 3 and isinstance(ret.items[2], Int) and ret.items[2].v == 0
+                general = fin and ret.items[:2] == [wantx, wanty]
+                fast = fin and env[kz1] and ret.items[:2] == [X1, Y1]
+                if not (general or fast):
+                    bad.append('%s returns %r, expected (X/Z^2, Y/Z^3, finite)%s' % ('Z = 1 path' if env[kz1] else 'general path', ret, ' or (X, Y, finite)' if env[kz1] else ''))
+            rep.check(not bad, 'GUARD', '%s:projective->affine%s' % (g, '' if ep == 'From' else ':' + ep),
+                      'identity -> identity; otherwise (X/Z^2, Y/Z^3) with the inversion only under Z != 0 (Z = 1 may copy X, Y)',
+                      '; '.join(sorted(set(bad))[:3]), fx.fn(p)['span'], construct=p)
         # ---------------------------------------------------- is_normalized / batch_normalization filters
         p = fx.impl_method('CurveProjective', proj, 'is_normalized')
         if p and fx.body(p):
@@ -393,33 +396,72 @@ def rule_projective_ops(fx, rep):
         if bn and fx.body(bn):
             rep.fn(bn)
             n += 1
-            clos = sorted(q for q in fx.fns if q.startswith(bn + '::{closure'))
-            good = 0
-            detail = []
-            for cq in clos:
-                cb = fx.body(cq)
-                if cb is None:
-                    continue
-                o = Origin(cb)
-                t = o.local(0)
-                neg = False
-                while t[0] == 'unop' and t[1] == 'Not':
-                    neg = not neg
-                    t = t[2]
-                t = strip(t)
-                if t[0] == 'call' and t[1].get('trait') == 'CurveProjective' and t[1].get('name') == 'is_normalized' and neg:
-                    good += 1
-                else:
-                    detail.append('%s filters on %s%s' % (cq.rsplit('::', 1)[1], '!' if neg else '', term_str(t)))
-            b = fx.body(bn)
-            nfilter = sum(1 for _, t in b.calls() if (callee(t) or {}).get('name') == 'filter')
-            rep.check(good == 3 and nfilter == 3 and not detail, 'GUARD', '%s:batch_normalization:filters' % g,
-                      'all three passes iterate over exactly the elements with !is_normalized() (so the prefix products line up and only Z != 0 is inverted)',
-                      'the three passes do not use one and the same filter: %s (filters=%d)' % ('; '.join(detail), nfilter), fx.fn(bn)['span'], construct=bn)
-            uw = [t for _, t in b.calls() if (callee(t) or {}).get('name') == 'unwrap']
-            o = Origin(b)
-            okuw = len(uw) == 1 and strip(o.operand(uw[0]['args'][0]))[0] == 'call' and strip(o.operand(uw[0]['args'][0]))[1].get('name') == 'inverse'
-            rep.check(okuw, 'GUARD', '%s:batch_normalization:inverse' % g, 'one inversion, of the accumulated product of non-zero Z', 'unexpected unwrap structure', fx.fn(bn)['span'])
+            # every batch of up to 3 elements, each the identity (Z = 0), normalised (Z = 1) or general:
+            # identity / normalised elements come back untouched, a general element comes back as
+            # (X/Z^2, Y/Z^3, 1) -- coordinates are monomials, so Montgomery's trick is decided exactly --
+            # and only products of non-zero Z are inverted.
+            import itertools
+            bad = []
+            n_scen = 0
+            for nel in range(4):
+                for kinds in itertools.product(('zero', 'one', 'gen'), repeat=nel):
+                    def oracle(v):
+                        # (is_zero, is_one) of a value, when the scenario decides it
+                        if isinstance(v, Lin) and len(v.t) == 1:
+                            (a_, k_), = v.t.items()
+                            if a_.startswith('Z') and a_[1:].isdigit() and int(a_[1:]) < nel and k_ in (1, -1):
+                                kd = kinds[int(a_[1:])]
+                                return kd == 'zero', kd == 'one'
+                        if isinstance(v, Lin) and not v.t:
+                            return False, True
+                        return None
+
+                    def extra(I, fr, t, c, pth):
+                        nm_ = c.get('name')
+                        if nm_ == 'is_zero' and c.get('trait') == 'ff::Field':
+                            o_ = oracle(I._as_lin(fr.deref_operand(t['args'][0])))
+                            if o_ is not None:
+                                fr.storev(t['dest'], Int(int(o_[0]), 1))
+                                return True
+                        if c.get('trait') == 'std::cmp::PartialEq' and nm_ in ('eq', 'ne') and len(t['args']) == 2:
+                            a_ = I._as_lin(fr.deref_operand(t['args'][0]))
+                            b_ = I._as_lin(fr.deref_operand(t['args'][1]))
+                            for u_, w_ in ((a_, b_), (b_, a_)):
+                                if isinstance(w_, Lin) and not w_.t:
+                                    o_ = oracle(u_)
+                                    if o_ is not None:
+                                        fr.storev(t['dest'], Int(int(o_[1] == (nm_ == 'eq')), 1))
+                                        return True
+                        return False
+                    elems = [Agg([at('X%d' % k_), at('Y%d' % k_), at('Z%d' % k_)]) for k_ in range(nel)]
+                    I = mk_interp(fx, proj, aff, extra=extra)
+                    I.max_steps = 200000
+                    try:
+                        res = I.run(bn, [('byref', Agg(elems))])
+                    except (exp.NotDerivable, exp.Budget) as e:
+                        bad.append('batch %r not derivable: %s' % (kinds, e))
+                        continue
+                    rep.sites(I.call_sites)
+                    n_scen += 1
+                    res = [r for r in res if not (isinstance(r[1], tuple) and r[1] and r[1][0] == 'diverges')] or res
+                    if len(res) != 1 or (isinstance(res[0][1], tuple) and res[0][1] and res[0][1][0] == 'diverges'):
+                        bad.append('batch %r: %d paths / panics (%r)' % (kinds, len(res), [r[1] for r in res][:2]))
+                        continue
+                    pth, ret, outs = res[0]
+                    out = outs.get(1)
+                    for k_, kd in enumerate(kinds):
+                        got = out.items[k_] if isinstance(out, Agg) and k_ < len(out.items) else None
+                        if kd == 'gen':
+                            want = [Lin({'X%d' % k_: 1, 'Z%d' % k_: -2}), Lin({'Y%d' % k_: 1, 'Z%d' % k_: -3}), Lin()]
+                        else:
+                            want = [at('X%d' % k_), at('Y%d' % k_), at('Z%d' % k_)]
+                        if not (isinstance(got, Agg) and got.items == want):
+                            bad.append('batch %r: element %d (%s) becomes %r, expected %r' % (kinds, k_, {'zero': 'identity', 'one': 'normalised', 'gen': 'general'}[kd], got, want))
+                    if not (isinstance(out, Agg) and len(out.items) == nel):
+                        bad.append('batch %r: slice length changes' % (kinds,))
+            rep.check(not bad and n_scen == 40, 'GUARD', '%s:batch_normalization:filters' % g,
+                      'for all 40 batches of <= 3 elements over {identity, normalised, general}: normalised elements are untouched, general ones become (X/Z^2, Y/Z^3, 1), no panic',
+                      '; '.join(bad[:3])[:900], fx.fn(bn)['span'], construct=bn)
     rep.floor('GUARD', 'curve-operations-analysed', n, 20)
 
 
